@@ -21,7 +21,7 @@ from .c04 import derived_names
 PROP = "C05"
 LEVEL = "exploration"
 RULE = (
-    "case = (date stratum >= 2015, population, rounding flag, k nodes of the DAG incl. derived "
+    "case = (date stratum >= 2015 or one of the sampled strata of 2005-2014 with the screened node universe, population, rounding flag, k nodes of the DAG incl. derived "
     "time-unit names); each node's own production column is fed back as a data column.  "
     "Non-trivial = the node has descendants among the targets and its column is not constant; "
     "distinct = (stratum, node, population digest).  In addition up to 3 (quick) / 12 (thorough) rules per "
